@@ -769,4 +769,281 @@ theorem sidesCompatible_of_closed (S : Schema) (doc : Node) (f t : Nat) (sl : Sl
   · rw [h, singleDepth_closed_left]; exact bridgeCompat_nil S _ _ _ _ _
   · rw [h, singleDepth_closed_right]; exact bridgeCompat_nil S _ _ _ _ _
 
+/-! ### the guard follows from the forward step when `compatible_content` is transitive -/
+
+def CompatTrans (S : Schema) : Prop :=
+  ∀ x y z : TypeId, S.compatibleContent x y = true → S.compatibleContent y z = true →
+    S.compatibleContent x z = true
+
+theorem ancCompat_of_not_deep (S : Schema) (n : Nat) (L : List Node) (f : Nat) (R : List Node) (t : Nat)
+    (h : ∀ c i r, splitRight L f ≠ some (.deep c i r)) : bridgeCompat S 0 n L f R t = true := by
+  cases n with
+  | zero => simp [bridgeCompat, ancCompat]
+  | succ n =>
+    simp only [bridgeCompat, ancCompat]
+    split
+    · rename_i h1 _; exact absurd h1 (h _ _ _)
+    · rfl
+
+theorem ancCompat_of_right_flat (S : Schema) (n : Nat) (L : List Node) (f : Nat) (R : List Node) (t : Nat)
+    (r : List Node) (h : splitRight R t = some (.flat r)) : bridgeCompat S 0 n L f R t = true := by
+  cases n with
+  | zero => simp [bridgeCompat, ancCompat]
+  | succ n =>
+    simp only [bridgeCompat, ancCompat, h]
+    split
+    · rename_i h2; simp at h2
+    · rfl
+
+theorem singleDepth_pos {M : List Node} {a b : Nat} (h : singleDepth M a b ≠ 0) :
+    ∃ ty at_ m k a' b', M = [.elem ty at_ m k] ∧ a = a' + 1 ∧ b = b' + 1 := by
+  unfold singleDepth at h
+  split at h
+  · exact ⟨_, _, _, _, _, _, rfl, rfl, rfl⟩
+  · simp at h
+
+theorem threeWay_bridge (S : Schema) (htr : CompatTrans S) : ∀ (L : List Node) (f extra : Nat)
+    (M : List Node) (a b : Nat) (R : List Node) (t : Nat) (X : List Node),
+    threeWay S L f extra M a b R t = .ok X →
+    bridgeCompat S extra (singleDepth M a b) L f R t = true
+  | [], f, extra, M, a, b, R, t, X, h => by
+    unfold threeWay at h
+    split at h
+    · split at h
+      · rename_i hf he; subst hf; subst he
+        exact ancCompat_of_not_deep S _ _ _ _ _ (by simp)
+      · simp at h
+    · simp at h
+  | n :: ns, f, extra, M, a, b, R, t, X, h => by
+    unfold threeWay at h
+    split at h
+    · split at h
+      · rename_i hf he; subst hf; subst he
+        exact ancCompat_of_not_deep S _ _ _ _ _ (by simp)
+      · simp at h
+    · rename_i hf
+      split at h
+      · rename_i hle
+        split at h
+        · rename_i r hr
+          rw [bridgeCompat_congr S extra _ (splitRight_skip n ns f hf hle) rfl]
+          exact threeWay_bridge S htr ns (f - n.size) extra M a b R t r hr
+        · simp at h
+      · rename_i hlt
+        cases n with
+        | text s m =>
+          simp only at h
+          split at h
+          · simp at h
+          · split at h
+            · simp at h
+            · rename_i he
+              have he0 : extra = 0 := by simpa using he
+              subst he0
+              refine ancCompat_of_not_deep S _ _ _ _ _ ?_
+              intro c i r
+              rw [splitRight_cons, if_neg hf, if_neg hlt]
+              simp only
+              split <;> simp
+        | leaf ty at_ m => simp at h
+        | elem tyL aL mL kidsL =>
+          simp only [Node.size_elem, Nat.not_le] at hlt
+          have hsL := splitRight_elem tyL aL mL kidsL ns f hf hlt
+          simp only at h
+          split at h
+          · simp at h
+          · rename_i rs hs
+            split at h
+            · rename_i hex
+              split at h
+              · rename_i tyR aR mR kidsR innerT rest
+                split at h
+                · split at h
+                  · rename_i inner hin
+                    obtain ⟨e, rfl⟩ : ∃ e, extra = e + 1 := ⟨extra - 1, by omega⟩
+                    simp only [bridgeCompat, hsL, hs]
+                    exact threeWay_bridge S htr kidsL (f - 1) e M a b kidsR innerT inner hin
+                  · simp at h
+                · simp at h
+              · simp at h
+            · rename_i hex
+              have hex0 : extra = 0 := by simpa using hex
+              subst hex0
+              split at h
+              · simp at h
+              · rename_i ha0
+                split at h
+                · simp at h
+                · rename_i cS Mtail
+                  split at h
+                  · rename_i tyS aS mS kidsS
+                    split at h
+                    · simp at h
+                    · rename_i hcSL
+                      split at h
+                      · rename_i tyR aR mR kidsR innerT rest b' x hx
+                        obtain ⟨rfl, rfl⟩ : Node.elem tyS aS mS kidsS = x ∧ Mtail = [] := by
+                          simpa using hx
+                        split at h
+                        · simp at h
+                        · rename_i hcRS
+                          split at h
+                          · rename_i inner hin
+                            obtain ⟨a', rfl⟩ : ∃ a', a = a' + 1 := ⟨a - 1, by omega⟩
+                            have ih := threeWay_bridge S htr kidsL (f - 1) 0 kidsS a' b' kidsR innerT inner
+                              (by simpa using hin)
+                            simp only [Bool.not_eq_eq_eq_not, Bool.not_true, Bool.not_eq_false] at hcSL hcRS
+                            have hc : S.compatibleContent tyL tyR = true := by
+                              rw [compat_symm]; exact htr _ _ _ hcRS hcSL
+                            simp only [singleDepth, bridgeCompat, Nat.add_comm 1, ancCompat, hsL, hs,
+                              Bool.and_eq_true]
+                            exact ⟨hc, by simpa [bridgeCompat] using ih⟩
+                          · simp at h
+                      · rename_i rs b _ _ _ hnot
+                        -- no merge through the slice at this level: the guard asks nothing
+                        by_cases hsd : singleDepth (Node.elem tyS aS mS kidsS :: Mtail) a b = 0
+                        · rw [hsd]; exact bridgeCompat_nil S _ _ _ _ _
+                        · obtain ⟨_, _, _, _, a', b', hM, _, hb⟩ := singleDepth_pos hsd
+                          cases rs with
+                          | flat r => exact ancCompat_of_right_flat S _ _ _ _ _ r hs
+                          | deep c i r =>
+                            cases c with
+                            | elem tyR aR mR kidsR => exact absurd hM (by
+                                intro hM'; exact hnot tyR aR mR kidsR i r b' _ rfl hb hM')
+                            | text s' m' =>
+                              exfalso
+                              simp [threeWay.rightJoinCheck, rightJoin] at h
+                              split at h <;> try simp at h
+                              all_goals (split at h <;> try simp at h)
+                              all_goals (split at h <;> simp at h)
+                            | leaf ty' a' m' =>
+                              exfalso
+                              simp [threeWay.rightJoinCheck, rightJoin] at h
+                              split at h <;> try simp at h
+                              all_goals (split at h <;> try simp at h)
+                              all_goals (split at h <;> simp at h)
+                  · simp at h
+
+theorem atLevel_bridge (S : Schema) (htr : CompatTrans S) {sl : Slice} {ty : TypeId}
+    {level : List Node} {f t extra : Nat} {level' : List Node}
+    (h : atLevel S sl ty level f t extra = .ok level') :
+    bridgeCompat S extra (singleDepth sl.content sl.openStart sl.openEnd) level f level t = true := by
+  unfold atLevel at h
+  simp only at h
+  split at h
+  · rename_i c hc
+    split at hc
+    · rename_i h0
+      by_cases hsd : singleDepth sl.content sl.openStart sl.openEnd = 0
+      · rw [hsd]; exact bridgeCompat_nil S _ _ _ _ _
+      · obtain ⟨_, _, _, _, _, _, hM, _, _⟩ := singleDepth_pos hsd
+        rw [hM] at h0
+        simp at h0
+    · split at hc
+      · rename_i hcond
+        simp only [Bool.and_eq_true, decide_eq_true_eq] at hcond
+        rw [hcond.1.1.1, singleDepth_closed_left]
+        exact bridgeCompat_nil S _ _ _ _ _
+      · cases hx : threeWay S level f extra sl.content sl.openStart sl.openEnd level t with
+        | error e => rw [hx] at hc; simp [Except.map] at hc
+        | ok r => exact threeWay_bridge S htr _ _ _ _ _ _ _ _ _ hx
+  · simp at h
+
+theorem outer_bridge (S : Schema) (htr : CompatTrans S) (sl : Slice) :
+    ∀ (rest : List Node) (ty : TypeId) (level : List Node) (f0 t0 idx f t extra : Nat)
+      (pre level' : List Node),
+      level = pre ++ rest → f0 = fsize pre + f → t0 = fsize pre + t → f ≤ t →
+      outer S sl ty level f0 t0 idx rest f t extra = .ok level' → fnorm level = true →
+      bridgeCompat S extra (singleDepth sl.content sl.openStart sl.openEnd) rest f rest t = true
+  | [], ty, level, f0, t0, idx, f, t, extra, pre, level', hl, hf0, ht0, hft, h, hn => by
+    have hpre : fnormKids pre = true := by rw [hl] at hn; exact fnormKids_append_left hn
+    unfold outer at h
+    have := atLevel_bridge S htr h
+    rwa [bridgeCompat_congr S extra _ (L2 := []) (f2 := f) (R2 := []) (t2 := t)
+      (by rw [hl, hf0]; exact splitRight_append_pre pre [] f hpre)
+      (by rw [hl, ht0]; exact splitRight_append_pre pre [] t hpre)] at this
+  | n :: ns, ty, level, f0, t0, idx, f, t, extra, pre, level', hl, hf0, ht0, hft, h, hn => by
+    have hpre : fnormKids pre = true := by rw [hl] at hn; exact fnormKids_append_left hn
+    have here : atLevel S sl ty level f0 t0 extra = .ok level' →
+        bridgeCompat S extra (singleDepth sl.content sl.openStart sl.openEnd) (n :: ns) f (n :: ns) t
+          = true := by
+      intro h'
+      have := atLevel_bridge S htr h'
+      rwa [bridgeCompat_congr S extra _ (L2 := n :: ns) (f2 := f) (R2 := n :: ns) (t2 := t)
+        (by rw [hl, hf0]; exact splitRight_append_pre pre _ f hpre)
+        (by rw [hl, ht0]; exact splitRight_append_pre pre _ t hpre)] at this
+    unfold outer at h
+    split at h
+    · exact here h
+    · rename_i hf
+      split at h
+      · rename_i hle
+        rw [bridgeCompat_congr S extra _ (splitRight_skip n ns f hf hle)
+          (splitRight_skip n ns t (by omega) (by omega))]
+        exact outer_bridge S htr sl ns ty level f0 t0 (idx + 1) (f - n.size) (t - n.size) extra
+          (pre ++ [n]) level' (by simp [hl]) (by rw [fsize_append]; simp; omega)
+          (by rw [fsize_append]; simp; omega) (by omega) h hn
+      · rename_i hlt
+        split at h
+        · rename_i tyC aC mC kidsC
+          split at h
+          · rename_i hcond
+            simp only [Bool.and_eq_true, decide_eq_true_eq, Node.size_elem] at hcond
+            simp only [Node.size_elem, Nat.not_le] at hlt
+            obtain ⟨hex, htsz⟩ := hcond
+            split at h
+            · rename_i inner hin
+              subst hl
+              obtain ⟨e, rfl⟩ : ∃ e, extra = e + 1 := ⟨extra - 1, by omega⟩
+              simp only [bridgeCompat, splitRight_elem tyC aC mC kidsC ns f hf hlt,
+                splitRight_elem tyC aC mC kidsC ns t (by omega) htsz]
+              exact outer_bridge S htr sl kidsC tyC kidsC (f - 1) (t - 1) 0 (f - 1) (t - 1) e
+                [] inner rfl (by simp) (by simp) (by omega) hin (fnorm_child hn)
+            · simp at h
+          · exact here h
+        · exact here h
+
+/-- when `compatible_content` is transitive, a successful replace satisfies the guard by itself -/
+theorem sidesCompatible_of_trans (S : Schema) (htr : CompatTrans S) (ty : TypeId) (a : Attrs)
+    (m : Marks) (K K' : List Node) (f t : Nat) (sl : Slice) (hn : fnorm K = true)
+    (h : replaceKids S ty K f t sl = .ok K') :
+    sidesCompatible S (.elem ty a m K) f t sl = true := by
+  obtain ⟨hft, ht, hwf, ho⟩ := replaceKids_ok h
+  exact outer_bridge S htr sl K ty K f t 0 f t _ [] K' rfl (by simp) (by simp) hft ho hn
+
+/-! ### transitivity of `compatible_content` as a decidable schema property -/
+
+theorem compat_oob (S : Schema) (x y : TypeId) (hx : S.nodes.size ≤ x) :
+    S.compatibleContent x y = (x == y) := by
+  have : (S.dfa x) = #[] := by
+    simp only [Schema.dfa, Schema.nodeType]
+    rw [getElem!_neg S.nodes x (by omega)]
+    rfl
+  simp [Schema.compatibleContent, Dfa.compatible, Dfa.edgesOf, this]
+
+/-- `compatible_content` is transitive on the node types of the schema -/
+def compatTransB (S : Schema) : Bool :=
+  (List.range S.nodes.size).all fun x => (List.range S.nodes.size).all fun y =>
+    (List.range S.nodes.size).all fun z =>
+      !(S.compatibleContent x y && S.compatibleContent y z) || S.compatibleContent x z
+
+theorem compatTrans_of_B (S : Schema) (h : compatTransB S = true) : CompatTrans S := by
+  intro x y z hxy hyz
+  by_cases hx : S.nodes.size ≤ x
+  · rw [compat_oob S x y hx] at hxy
+    have : x = y := by simpa using hxy
+    subst this; exact hyz
+  by_cases hy : S.nodes.size ≤ y
+  · rw [compat_symm, compat_oob S y x hy] at hxy
+    have : y = x := by simpa using hxy
+    subst this; exact hyz
+  by_cases hz : S.nodes.size ≤ z
+  · rw [compat_symm, compat_oob S z y hz] at hyz
+    have : z = y := by simpa using hyz
+    subst this; exact hxy
+  simp only [compatTransB, List.all_eq_true, List.mem_range] at h
+  have := h x (by omega) y (by omega) z (by omega)
+  simp only [hxy, hyz, Bool.and_self, Bool.not_true, Bool.false_or] at this
+  exact this
+
 end PM
